@@ -9,6 +9,7 @@ import (
 	"encoding/json"
 	"errors"
 	"fmt"
+	"math"
 	"math/big"
 	"net"
 	"net/http"
@@ -83,6 +84,7 @@ type rdesc struct {
 	fwd     bool
 	n       uint
 	opts    []optFlag
+	zero    bool     // leftmost / count: the zero value of the struct, built without the constructor (reads Header[""])
 	rangeOK bool     // range: the TrustedIPRange resolver succeeds
 	ranges  []string // range: arguments of AddressesAndRangesToIPNets
 	subs    []*rdesc
@@ -106,6 +108,9 @@ func (d *rdesc) build() (fox.ClientIPResolver, error) {
 	case "single":
 		return clientip.NewSingleIPHeader(singleHeader)
 	case "leftmost":
+		if d.zero {
+			return clientip.LeftmostNonPrivate{}, nil
+		}
 		var opts []clientip.BlacklistRangeOption
 		for _, o := range d.opts {
 			switch o.kind {
@@ -132,6 +137,9 @@ func (d *rdesc) build() (fox.ClientIPResolver, error) {
 		}
 		return clientip.NewRightmostNonPrivate(key(d.fwd), opts...)
 	case "count":
+		if d.zero {
+			return clientip.RightmostTrustedCount{}, nil
+		}
 		return clientip.NewRightmostTrustedCount(key(d.fwd), d.n)
 	case "range":
 		if !d.rangeOK {
@@ -226,10 +234,16 @@ func (d *rdesc) human() string {
 	case "remote", "single":
 		return d.kind
 	case "leftmost":
+		if d.zero {
+			return "LeftmostNonPrivate{}"
+		}
 		return fmt.Sprintf("leftmost(%s,limit=%d,opts=%v)", h, d.n, d.opts)
 	case "rnp":
 		return fmt.Sprintf("rightmost-non-private(%s,opts=%v)", h, d.opts)
 	case "count":
+		if d.zero {
+			return "RightmostTrustedCount{}"
+		}
 		return fmt.Sprintf("rightmost-trusted-count(%s,%d)", h, d.n)
 	case "range":
 		if !d.rangeOK {
@@ -287,6 +301,7 @@ func (r reqDesc) httpRequest(emptyAsNil bool) *http.Request {
 		req.Header[k] = append([]string(nil), v...)
 	}
 	set("X-Forwarded-For", r.xff)
+	set("", r.xff) // what a zero-value LeftmostNonPrivate{} / RightmostTrustedCount{} (headerName "") reads, as an XFF list
 	set("Forwarded", r.fwd)
 	set(singleHeader, r.single)
 	req.RemoteAddr = r.remote
@@ -800,11 +815,17 @@ func (g *gen) resolver(depth int) *rdesc {
 	case p < 14:
 		return &rdesc{kind: "single"}
 	case p < 30:
-		return &rdesc{kind: "leftmost", fwd: fwd, n: uint([]int{1, 1, 2, 3, 4, 5, 8, 100}[r.Intn(8)]), opts: g.opts()}
+		if r.Pct(4) {
+			return &rdesc{kind: "leftmost", zero: true} // limit 0, header "", no ranges
+		}
+		return &rdesc{kind: "leftmost", fwd: fwd, n: hx.Pick(r, []uint{1, 1, 2, 3, 4, 5, 8, 100, 1 << 31, 1<<63 - 1, 1 << 63, 1<<63 + 1, math.MaxUint}), opts: g.opts()}
 	case p < 50:
 		return &rdesc{kind: "rnp", fwd: fwd, opts: g.opts()}
 	case p < 68:
-		return &rdesc{kind: "count", fwd: fwd, n: uint([]int{1, 1, 1, 2, 2, 3, 4, 5, 7, 30}[r.Intn(10)])}
+		if r.Pct(4) {
+			return &rdesc{kind: "count", zero: true} // trustedCount 0: trustedCount-1 wraps to MaxUint
+		}
+		return &rdesc{kind: "count", fwd: fwd, n: hx.Pick(r, []uint{1, 1, 1, 2, 2, 3, 4, 5, 7, 30, 1 << 31, 1<<63 - 1, 1 << 63, 1<<63 + 1, math.MaxUint})}
 	case p < 88:
 		d := &rdesc{kind: "range", fwd: fwd, rangeOK: !r.Pct(6)}
 		for n := r.Intn(5); n > 0; n-- {
@@ -1058,6 +1079,16 @@ func main() {
 		{reqDesc{xff: []string{"192.18.0.1, 1.1.1.1"}}, &rdesc{kind: "leftmost", n: 2}},
 		{reqDesc{fwd: []string{"For=\"[2001:db8:cafe::17%zone]:4711\"", "for=192.0.2.60;proto=http; by=203.0.113.43"}}, &rdesc{kind: "count", fwd: true, n: 2}},
 		{reqDesc{xff: []string{"4.4.4.4, 10.0.0.1"}, single: []string{"3.3.3.3", "5.5.5.5"}, remote: "192.0.2.1:8080"}, &rdesc{kind: "chain", subs: []*rdesc{{kind: "single"}, {kind: "remote"}}}},
+		// boundary parameters (all of uint) and zero-value structs
+		{reqDesc{xff: []string{"10.0.0.1, 8.8.8.8"}}, &rdesc{kind: "leftmost", n: math.MaxUint}},
+		{reqDesc{xff: []string{"10.0.0.1, 8.8.8.8"}}, &rdesc{kind: "leftmost", n: 1 << 63}},
+		{reqDesc{xff: []string{"10.0.0.1, 8.8.8.8"}}, &rdesc{kind: "leftmost", n: 1<<63 - 1}},
+		{reqDesc{xff: []string{"10.0.0.1, 8.8.8.8"}}, &rdesc{kind: "count", n: math.MaxUint}},
+		{reqDesc{xff: []string{"10.0.0.1, 8.8.8.8"}}, &rdesc{kind: "count", n: 1 << 63}},
+		{reqDesc{xff: []string{"10.0.0.1, 8.8.8.8"}}, &rdesc{kind: "count", n: 1<<63 + 1}},
+		{reqDesc{xff: []string{"10.0.0.1, 8.8.8.8"}}, &rdesc{kind: "count", zero: true}},
+		{reqDesc{xff: []string{"10.0.0.1, 8.8.8.8"}}, &rdesc{kind: "leftmost", zero: true}},
+		{reqDesc{xff: []string{"8.8.8.8"}, remote: "1.2.3.4:1"}, &rdesc{kind: "chain", subs: []*rdesc{{kind: "count", zero: true}, {kind: "leftmost", n: math.MaxUint}}}},
 		// witnesses of the fixed defect c18_empty_chain (a2abf08): must now satisfy the specification
 		{reqDesc{remote: "1.2.3.4:1"}, &rdesc{kind: "chain"}},
 		{reqDesc{remote: "1.2.3.4:1"}, &rdesc{kind: "chain", subs: []*rdesc{{kind: "chain"}, {kind: "remote"}}}},
